@@ -159,6 +159,73 @@ fn main() {
             });
         },
     );
+    // grids made by GridBuilder: the same accessor agreement (shape vs projections vs index vs index_of)
+    rep.run_sub(
+        "grid-builder-accessors",
+        "GridBuilder<Sqrt | Rice | Sturges | FreedmanDiaconis | Auto> on 1..=3 columns of integer, ordinary float and coarse float data (1e16 + {0,2,4}: equispaced edges collide and are de-duplicated): Grid::shape() equals the projections' lengths, every in-shape index tuple is answered by Grid::index, every observation is found by Grid::index_of in a cell that contains it",
+        (1..=3usize).flat_map(|cols| (0..5u8).flat_map(move |strat| (0..3u8).flat_map(move |kind| [4usize, 9, 16, 30].iter().map(move |&rows| (cols, strat, kind, rows)).collect::<Vec<_>>()))),
+        |c, lx| {
+            use ndarray_stats::histogram::strategies::{Auto, FreedmanDiaconis, Rice, Sqrt, Sturges};
+            use ndarray_stats::histogram::GridBuilder;
+            let (cols, strat, kind, rows) = *c;
+            lx.nontrivial(true);
+            lx.single(|lx| {
+                let vals: Vec<N64> = (0..rows * cols)
+                    .map(|k| {
+                        let (i, j) = (k / cols, k % cols);
+                        let x = ((i * (j + 2) * 7 + j) % (11 + 6 * j)) as f64;
+                        n64(match kind {
+                            0 => x + (j * 100) as f64,
+                            1 => x * 0.1 + j as f64 * 1000.3,
+                            _ => 1e16 + 2.0 * ((x as usize) % 3) as f64 + j as f64 * 1e17,
+                        })
+                    })
+                    .collect();
+                let m = ndarray::Array2::from_shape_vec((rows, cols), vals.clone()).unwrap();
+                macro_rules! go {
+                    ($ty:ident) => {
+                        guarded(|| GridBuilder::<$ty<N64>>::from_array(&m).map(|gb| gb.build()))
+                    };
+                }
+                let r = match strat {
+                    0 => go!(Sqrt),
+                    1 => go!(Rice),
+                    2 => go!(Sturges),
+                    3 => go!(FreedmanDiaconis),
+                    _ => go!(Auto),
+                };
+                let grid = match r {
+                    Ok(Ok(g)) => g,
+                    Ok(Err(_)) => return 1,
+                    Err(msg) => {
+                        lx.fail("C13/grid-builder-panic", || format!("GridBuilder (strategy {}) panicked: {}; {:?}", strat, msg, c));
+                        return 0;
+                    }
+                };
+                let shape = grid.shape();
+                let plens: Vec<usize> = grid.projections().iter().map(|b| b.len()).collect();
+                lx.check(shape == plens && grid.ndim() == cols, "C13/grid-shape", || format!("GridBuilder (strategy {}) grid: shape() = {:?} but the projections have {:?} bins; {:?}", strat, shape, plens, c));
+                if shape.iter().all(|&s| s >= 1) && shape == plens {
+                    for corner in 0..(1usize << cols) {
+                        let ix: Vec<usize> = (0..cols).map(|k| if corner >> k & 1 == 1 { shape[k] - 1 } else { 0 }).collect();
+                        let r = guarded(|| grid.index(&ix));
+                        lx.check(r.is_ok(), "C13/grid-index", || format!("GridBuilder (strategy {}) grid of shape {:?}: index({:?}) panicked; {:?}", strat, shape, ix, c));
+                    }
+                }
+                for row in m.rows() {
+                    if let Ok(Some(ix)) = guarded(|| grid.index_of(&row)) {
+                        if ix.iter().zip(&plens).all(|(i, s)| i < s) {
+                            let cell = grid.index(&ix);
+                            lx.check(cell.iter().zip(row.iter()).all(|(r, v)| r.start <= *v && *v < r.end), "C13/grid-cell-does-not-contain-point", || format!("GridBuilder grid: index(index_of({:?})) = {:?}", row, cell));
+                        } else {
+                            lx.fail("C13/grid-index-of", || format!("GridBuilder grid with projections of {:?} bins: index_of({:?}) = {:?}", plens, row, ix));
+                        }
+                    }
+                }
+                hash_of(&shape)
+            });
+        },
+    );
     let gcases = (1..=3usize).flat_map(|d| sequences(d, GRID_SETS.len())).map(|a| GridCase { axes: a });
     rep.run_sub(
         "grid",
